@@ -65,6 +65,7 @@ Definition referenced (old_prefix new_prefix : name) (groups : groups_t) (glyphS
   sort_names (known ++ used).
 
 (* the renaming loop of one side; None = out of fuel (never: there are more candidates than names) *)
+(* group_names: every existing group name followed by every kerning key of this side (existingGroupNames) *)
 Fixpoint rename_loop (old_prefix new_prefix : name) (group_names : list name) (todo : list name) (done : list (name * name))
   : option (list (name * name)) :=
   match todo with
@@ -88,8 +89,8 @@ Definition convert (kerning : kerning_t) (groups : groups_t) (glyphSet : list na
   let firsts := map fst kerning in
   let seconds := flat_map (fun row => map fst (snd row)) kerning in
   let gnames := map fst groups in
-  match rename_loop MMK_L KERN1 gnames (referenced MMK_L KERN1 groups glyphSet firsts) [],
-        rename_loop MMK_R KERN2 gnames (referenced MMK_R KERN2 groups glyphSet seconds) [] with
+  match rename_loop MMK_L KERN1 (gnames ++ firsts) (referenced MMK_L KERN1 groups glyphSet firsts) [],
+        rename_loop MMK_R KERN2 (gnames ++ seconds) (referenced MMK_R KERN2 groups glyphSet seconds) [] with
   | Some r1, Some r2 =>
     let newKerning := fold_left (fun acc row =>
                         dict_put (renamed r1 (fst row))
